@@ -62,6 +62,9 @@ fn prepare_dir(env: &Env) {
     std::fs::write("p", "y = 1\n").unwrap();
     std::fs::create_dir_all("x").unwrap();
     std::fs::write("self.ninja", "include self.ninja\n").unwrap();
+    // children whose first statement reads a file named through a variable of the parent
+    std::fs::write("kid_inc.ninja", "include $lv\n").unwrap();
+    std::fs::write("kid_sub.ninja", "subninja ${lv}/x\n").unwrap();
 }
 
 impl C12 {
@@ -151,7 +154,7 @@ impl C12 {
         let mut accepted = 0u64;
         let mut sigs = std::collections::BTreeSet::new();
         let mut b = text.clone();
-        let kind = t.below(9);
+        let kind = t.below(10);
         let describe;
         match kind {
             0 => {
@@ -223,8 +226,16 @@ impl C12 {
                 b.extend_from_slice(forms[t.below(forms.len())].as_bytes());
                 describe = "empty expansion in a path position".into();
             }
+            8 => {
+                // a block followed by an unfinished indented line as the very last bytes (no final newline)
+                let heads = ["rule zz9\n  command = c\n", "build zz9: phony\n", "pool zz9\n  depth = 1\n", "build zz8: phony\n  x = 1\n"];
+                let tails = ["  #", "  # comment", "\t#", "  x", "  x =", "  x = $", "  x = ${", "  x = ${y", "  $", "  x = a $\n", "  x = a $\n  ", "  =", "  #\0", "  x = \r", "#", "  |", "  :"];
+                b.extend_from_slice(heads[t.below(heads.len())].as_bytes());
+                b.extend_from_slice(tails[t.below(tails.len())].as_bytes());
+                describe = "unfinished indented line at end of file".into();
+            }
             7 => {
-                let forms = ["include x\n", "include nosuch\n", "subninja x\n", "include p\ninclude p\n", "subninja p\n", "include \u{e9}\n", "include p extra\n", "include self.ninja\n", "subninja self.ninja\n"];
+                let forms = ["lv = a_rather_long_name_of_a_file_that_does_not_exist_anywhere_in_this_directory.ninja\nsubninja kid_inc.ninja\n", "lv = x\ninclude kid_sub.ninja\n", "lv = another/quite/long/path/of/which/no/component/exists/at/all\nsubninja kid_sub.ninja\n", "include x\n", "include nosuch\n", "subninja x\n", "include p\ninclude p\n", "subninja p\n", "include \u{e9}\n", "include p extra\n", "include self.ninja\n", "subninja self.ninja\n"];
                 b.extend_from_slice(forms[t.below(forms.len())].as_bytes());
                 describe = "include of a directory / missing file / itself".into();
             }
